@@ -6,6 +6,7 @@ import (
 	"bytes"
 	"fmt"
 	"sort"
+	"strings"
 
 	"verifharness/core"
 	"verifharness/lsharness"
@@ -33,6 +34,8 @@ var fixed = []core.Case{
 	{ID: "fix-two-direct", NT: true, Ops: []string{"put req 80 80:aa", "put req 80 81:bb", "put req 80 c0:cc", "put req 80 40:dd", "set pin 80 81,c0", "reopen"}},
 	// failed call after a direct write
 	{ID: "fix-direct-then-error", NT: true, Ops: []string{"put req 80 80:aa", "put req 80 81:bb", "put req 80 c0:cc", "set pin 80 81,41", "reopen"}},
+	{ID: "fix-known-gc-direct-pin-write", NT: true, Ops: strings.Split("put req 80 80:b8; put req 80 c0:ca; put req 80 40:ad2d; set pin 80 40; set pin - 40; put req 40 20:6018,40:93c7,80:e0,20:967a; cap 2; pyr 80 81:2,c0:1,40:1,41:2; pyr 40 20:1,80:1; gcsel; gcevict", "; ")},
+	{ID: "fix-known-gc-repeated-cid", NT: true, Ops: strings.Split("put req 20 20:83; put req 20 81:1c78; put req 20 40:fe; put req 20 10:537c; set remove 81 10,40,20,81; set pin 80 80; has chunk 81; put req 20 20:65; put uppin 80 81:0a; put req 81 20:8939; put uppin - 20:71,81:2d3e,10:7c; cap 1; pyr 20 81:1,40:1,41:1,10:1; gcsel; get req 80 10; gcevict", "; ")},
 	{ID: "fix-fresh", NT: false, Ops: []string{"has chunk 80", "reopen", "put up - 80:aa"}},
 }
 
@@ -151,7 +154,12 @@ func (o *oracle) Check(ctx *core.Ctx, ev *lsharness.Event) {
 			cv := chunkView(d, a)
 			if cv != chunkView(ev.Before, a) && cv != chunkView(ev.After, a) {
 				if !(ev.Kind == "gcevict" && p != ev.Before.PinOf(a) && p != ev.After.PinOf(a)) {
-					ctx.Fail("chunk-before-or-after", "crash after write %d/%d of `%s %s`: chunk %s is {%s}, before {%s}, after {%s}", k, n, ev.Kind, ev.Mode, h, cv, chunkView(ev.Before, a), chunkView(ev.After, a))
+					clause := "chunk-before-or-after"
+					if ev.Kind == "gcevict" {
+						// the collection run lowers a pin counter by a direct pinIndex.Put before its batch commits
+						clause = "chunk-before-or-after-gc-direct-pin-write"
+					}
+					ctx.Fail(clause, "crash after write %d/%d of `%s %s`: chunk %s is {%s}, before {%s}, after {%s}", k, n, ev.Kind, ev.Mode, h, cv, chunkView(ev.Before, a), chunkView(ev.After, a))
 				}
 			}
 		}
